@@ -13,16 +13,21 @@ namespace IrVerif.Device
 
 /-! ### C19_step -/
 
-/-- **C19_step**: every operation of the alphabet — annotate (`shard`, `set_pipeline_stage`, valid or
-    rejected), register / remove a configuration with cascade, rename, replace an input, resize
-    inputs / outputs, append / remove a node, clone, serialize -> deserialize — preserves `DevOK`,
-    provided the in-alphabet condition `Pre` holds for it (ids exist; the configuration of an
-    annotation request is registered on the node's model with device indices inside it;
-    `cascade=True`; a round trip is taken of a model whose named values have unique names). -/
+/-- **C19_step** (worlds with nested graphs): every operation of the alphabet — annotate (`shard`,
+    `set_pipeline_stage`, valid or rejected), register / remove a configuration with cascade, rename,
+    replace an input, resize inputs / outputs, append a node to a root graph or a subgraph, attach a
+    subgraph to a node, remove a node (with everything nested under it), clone (recursively, value map
+    shared across scopes), serialize -> deserialize (names resolved through all enclosing scopes) —
+    preserves `DevOK`, provided the in-alphabet condition `Pre` holds for it (ids exist; the
+    configuration of an annotation request is registered on the node's model with device indices
+    inside it; `cascade=True`; clone / round trip of a model whose node and graph lists are closed
+    under nesting; a clone that clones no value twice; a round trip at IR version >= 11 of a model
+    whose named values have unique names). -/
 theorem C19_step (w : World) (op : Op) (h : DevOK w) (hpre : Pre w op) : DevOK (step w op).1 := by
   cases op with
   | newModel ir => exact DevOK_newModel h ir
   | newInput m name shape => exact DevOK_newInput h m name shape
+  | newSubgraph n => exact DevOK_newSubgraph h n
   | newNode m ins outs => exact DevOK_newNode h m ins outs hpre
   | removeNode m n safe => exact DevOK_removeNode h m n safe
   | rename v s => exact DevOK_rename h v s
@@ -36,7 +41,7 @@ theorem C19_step (w : World) (op : Op) (h : DevOK w) (hpre : Pre w op) : DevOK (
   | replaceInput n i val => exact DevOK_replaceInput h n i val hpre
   | resizeInputs n k => exact DevOK_resizeInputs h n k
   | resizeOutputs n k => exact DevOK_resizeOutputs h n k
-  | clone m => exact DevOK_clone h m
+  | clone m => exact DevOK_clone h m hpre
   | roundTrip m => exact DevOK_roundTrip h m hpre
 
 /-- `Pre` holds for every operation of the history at the world it is applied to -/
@@ -61,16 +66,22 @@ theorem C19_history (ops : List Op) : ∀ (w : World), DevOK w → PreAll w ops 
     intro w h hp
     exact ih (step w op).1 (C19_step w op h hp.1) hp.2
 
-/-- non-vacuity of `Pre`/`DevOK`: a history with annotations, a rename, a detach, a cascade
-    removal, a clone and a round trip satisfies `PreAll`, and the final world has annotations. -/
+/-- non-vacuity of `Pre`/`DevOK`: a history with a subgraph whose node uses and shards an
+    outer-scope value, annotations, a rename, a detach, a cascade removal, a clone and a round trip
+    satisfies `PreAll`; the cloned and the deserialized nested nodes (4 and 7) carry
+    annotations. -/
 example :
     let ops : List Op := [.newModel 11, .newInput 0 "x" (some [.int 2, .int 3]), .newInput 0 "y" none,
-      .newNode 0 [some 0, some 1] [("o", some [.int 2])], .addCfg 0 "c" (some 2) [], .addCfg 0 "d" (some 1) [],
+      .newNode 0 [some 0, some 1] [("o", some [.int 2])], .newNode 0 [some 2] [("p", none)],
+      .newSubgraph 1, .newInput 1 "si" none, .newNode 1 [some 0, some 4, some 2] [("t", some [.int 4])],
+      .addCfg 0 "c" (some 2) [], .addCfg 0 "d" (some 1) [],
       .shard 0 0 0 (-1) 2 [0, 1] (some 1), .shard 0 2 0 0 2 [1] none, .setStage 0 1 0,
+      .shard 2 0 0 1 2 [0] none, .shard 2 5 1 0 4 [] (some 2),   -- a nested node shards an outer-scope value
       .rename 0 "x2", .clone 0, .roundTrip 0, .removeCfg 0 (.byName "d") true,
-      .replaceInput 0 0 (some 1), .resizeOutputs 0 0]
+      .replaceInput 0 0 (some 1), .resizeOutputs 1 0]
     PreAll {} ops ∧ (run {} ops).2.all (· = .ok) ∧
-    ((run {} ops).1.node 1).dev ≠ [] ∧ ((run {} ops).1.node 2).dev ≠ [] := by
+    ((run {} ops).1.node 4).dev ≠ [] ∧ ((run {} ops).1.node 7).dev ≠ [] ∧
+    DevOK (run {} ops).1 := by
   decide
 
 /-- `Pre` is not vacuous the other way either: without it the invariant can be lost (documented
@@ -169,6 +180,34 @@ theorem C19_names_current (w : World) (m : MId) (protos : List (List PCfg))
     (h : serModelDev w m = some protos) (hir : 11 ≤ (w.model m).irVersion) :
     protos = (w.model m).nodes.map (fun n => (w.node n).dev.map (cfgProto w)) :=
   serModelDev_eq h hir
+
+/-- **C19_roundtrip_faithful**: a successful in-alphabet round trip (`DevOK`, IR version >= 11, closed
+    lists, unique names of named values; serialization succeeding means every sharded value is named)
+    reproduces every annotation field by field on fresh objects.  The correspondence between old and
+    new ids: the new model is the last model; its configuration objects are record-for-record copies
+    (name, num_devices, device names) of the source model's, in order; its nodes are the second
+    components of a list of pairs (source node, new node) — nested nodes included, every source node
+    of the model occurs as a first component (nothing is lost) — and for every pair the annotation records correspond position by position (`NodeRel`): the copy refers to the
+    copy of the same configuration, has the same stage, and its specs, in the same order, target
+    existing values of the *same name* with the same device list and the same sharded axes (axis,
+    dimension, number of shards).  (`C19_step` adds that those values are inputs/outputs of the new
+    node and that the configurations are registered on the new model.) -/
+theorem C19_roundtrip_faithful (w : World) (h : DevOK w) (m : MId) (hpre : Pre w (.roundTrip m))
+    (hok : (roundTrip w m).2 = .ok) :
+    (roundTrip w m).1.models.length = w.models.length + 1 ∧
+    (((roundTrip w m).1.model w.models.length).cfgs.map (roundTrip w m).1.cfg = (w.model m).cfgs.map w.cfg) ∧
+    ((roundTrip w m).1.model w.models.length).irVersion = (w.model m).irVersion ∧
+    ∃ ps : List (NId × NId), ((roundTrip w m).1.model w.models.length).nodes = ps.map (·.2) ∧
+      (∀ n ∈ (w.model m).nodes, n ∈ ps.map (·.1)) ∧
+      ∀ p ∈ ps, p.1 ∈ (w.model m).nodes ∧
+        NodeRel w (roundTrip w m).1 (w.node p.1) ((roundTrip w m).1.node p.2) :=
+  roundTrip_faithful h m hpre hok
+
+/-- `NodeRel` spelled out -/
+example (w w' : World) (nd nd' : NodeS) : NodeRel w w' nd nd' =
+    All2 (fun nc nc' => w'.cfg nc'.cfg = w.cfg nc.cfg ∧ nc'.stage = nc.stage ∧
+      All2 (fun s s' => s'.value < w'.values.length ∧ (w'.value s'.value).name = (w.value s.value).name ∧
+        s'.device = s.device ∧ s'.dims = s.dims) nc.specs nc'.specs) nd.dev nd'.dev := rfl
 
 /-- **C19_serializable**: with `DevOK` and named sharded values, serialization of the device fields
     does not raise (so `C19_names_current` applies). -/
